@@ -90,8 +90,7 @@ def run(ctx):
         return
     core.build_harness(bins=["solve"])
     rng = ctx.rng
-    progs = []
-    # the recorded witness first (text of Rules/Wf.v WfExamples.Dh is rebuilt by the generator's circular shape; here verbatim)
+    progs = list(eg.corpus_c21())          # the recorded witness first (Rules/Wf.v WfExamples.Dh)
     for _ in range(ctx.n(22, 500)):
         progs.append(eg.gen_wf_program(rng))
     cases, meta = [], []
